@@ -302,4 +302,79 @@ ZOO = [
     ("void f(void){ x = (a)(b); y = (T)(b); z = (a)[1]; s.m[1].n->o++; f(1)(2); (*fp)(3); }", False),
     ("int a[] = { [2] = 5, [5 ... 7] = 7, 9 }; struct S s = { .a = 1, .in.c = 3, .arr[1] = 2 }, *sp = &(struct S){ .a = 2 };", False),
     ("# 1 \"a.c\"\nint a;\n# 1 \"inc.h\" 1\nint b;\n# 2 \"a.c\" 2\nint c;\n#line 10\nint d;\n# 20\n# 30 \"z.c\"\nint e;", True),
+    # round 5: rarely used productions, every literal form, malformed directives, inputs that end early
+    ('void f(void){ if (x)\n#pragma a\n#pragma b\n y; else\n#pragma c\n_Pragma("d")\n z; }', True),
+    ('void f(void){ while (x)\n#pragma a\n_Pragma("b")\n#pragma c\n y; z; }', True),
+    ('void f(void){ for(;;) _Pragma("a") _Pragma("b") x; L:\n#pragma l\n_Pragma("m") y; }', True),
+    ('void f(void){ switch (x) { case 1:\n#pragma p\n_Pragma("q") a; default: _Pragma("r")\n#pragma s\n b; } }', True),
+    ('void f(void){ do _Pragma("a")\n#pragma b\n x; while (0); if (y) _Pragma("c") z; else w; }', True),
+    ('_Pragma("a") _Pragma("b") int x;\n#pragma c\n_Pragma("d")\nint y;\n#pragma\nint z;', True),
+    ('struct S {\n#pragma pack\n int a; _Pragma("x") int b;\n#pragma one\n#pragma two\n};', True),
+    ('void f(void){\n#pragma first\n#pragma second\n}', True),
+    ('void f(void){ a: b: c: x; switch (y) { l1: case 1: l2: case 2: default: l3: z; } goto b; }', True),
+    ('void f(void){ switch (x) { case 1: case 2: a; case 3: { b; } default: c; d; } switch (y) { default: switch (z) { case 1: e; } case 4: g; } }', True),
+    ('typedef int T; typedef char U; void f(void){ x = (T)(U)(long)y; z = (T)-(U)+w; v = (T*)(U*)t; q = (T)(a)(b); }', True),
+    ('void f(void){ a = b += c -= d *= e; a %= b; a <<= 1; a >>= 2; a &= 3; a ^= 4; a |= 5; a /= 6; }', True),
+    ('void f(void){ x = (a?b:c)?d:e; y = a?b:c?d:e; z = a?(b,c):d; w = a ? b ? c : d : e; v = (a, b) ? c : d; }', True),
+    ('void f(void){ r = (*p).y; s = (**pp).y; t = (*(p+1)).x; u = p->y->z.w; v = (&s)->m; w = a[1][2].b[3]; }', True),
+    ('void f(void){ x = a->b, ++a, a--, ~a, !a, a%b, a<<b, a>>b, a<=b, a>=b, a!=b, a^b, a|b, a&&b, a||b, -a, +a, *a, &a, --a, a++; }', True),
+    ('void f(void){ x = sizeof a + sizeof(a) * sizeof(int) - sizeof(int *) / sizeof a[0] % sizeof *a; y = _Alignof(int) + _Alignof(char *); }', True),
+    ('void f(void){ x = f(), g(1), h(1, 2), (k)(3), (*fp)(), arr[i](j), s.fn(1)(2)[3]; }', True),
+    ('void f(void){ switch (c) { case\'a\': return"abc"[0]; } x = sizeof"abc"; y = L\'a\'+u8"s"[0]; }', True),
+    ('void f(int n){ int buf[(n++, n*2)]; x = sizeof(int [(n,2)]); int m[n][2*n]; }', True),
+    ('void f(void){ x = (int){1} ; p = &(struct S){ .a = 1 }; q = (int[]){1, 2, 3}; r = (const char *[]){"a", "b"}; }', True),
+    ('void f(void){ x = offsetof(struct S, a); y = offsetof(struct S, a.b[2].c); z = offsetof(struct S, m[1]); }', True),
+    ('struct S { unsigned f:1, c; int a, b:2, :3, d; const int e:4; };', True),
+    ('void f(int ()); void g(int (void)); int h = sizeof(char *()); void k(int (*)(), int (*[])(int), int (*(*)(int))[3]); void l(int [], int [3], int [][4]);', True),
+    ('typedef unsigned length; struct buffer { char *data; unsigned length; } b = { .length = 0u, .data = 0 }; struct nest { struct buffer length; } n = { .length.length = 1 };', True),
+    ('static _Thread_local int x; extern _Thread_local int y; _Thread_local static int z; _Noreturn void die(void); inline static int q(void){ return 0; }', True),
+    ('int p(const char *, ...); int q(int a, ...); void r(void); void s(); int (*t)(int, ...);', True),
+    ('enum E { A }; enum F { B, }; enum G { C = 1, D = C + 1, }; enum { H } anon; enum E e1, *e2;', True),
+    ('struct e {}; union u {}; struct o { struct e in; } v; struct fwd; struct fwd *pf; struct fwd { int k; };', False),
+    ('int a, *b, **c, d[2], *e[3], (*f)[4], g(void), *h(void), (*i)(void), (*j[5])(void), (*(*k)(void))[6];', True),
+    ('const int ci; int const ic; volatile const int vc; int * const pc; const int * cp; int * const * volatile cpv; restrict int *r;', True),
+    ('long long ll; unsigned long long ull; long unsigned int lui; signed char sc; long double ld; short int si; _Bool bb; float _Complex fc;', True),
+    ('typedef int T; void f(int T){ if (T) { T = 2; } { int U; } } T after; void g(void){ { int T; { (T)(1); T * y; } } T z; }', True),
+    ('typedef int T; void f(void){ { typedef char T; T c; } T i; { int T = 1; T++; } T j; if (1) {} T k; struct { T m; } s = {0}; T l; }', True),
+    ('typedef int T; T f(T a, T *b), g(T (*)(T)); T (*h)(T); struct S { T t; T *u; T v[2]; }; T arr[sizeof(T)];', True),
+    ('int x = 08;', False),
+    ('int x = 09;', False),
+    ('int x = 018;', False),
+    ('int x = 1٣;', False),
+    ('int y = 0b102;', False),
+    ('double d = 1e+;', False),
+    ('int z = 0x;', False),
+    ('int w = 1.2.3;', False),
+    ('double d = 0x1p-3 + 0x.8p1 + 0x1.p2f + 0xAp+10L; double e = 1.5f + 1.e3L + .5 + 1e+3 + 1E-2f + 5e3;', True),
+    ('int i = 1u + 1ul + 1lu + 1ull + 1llu + 1LL + 0x1UL + 0b101 + 017 + 0 + 0x0 + 1U + 1Lu + 1uLL;', True),
+    ('int c = \'a\' + \'\\n\' + \'\\x41\' + \'\\377\' + L\'a\' + u\'a\' + U\'a\' + u8\'a\' + \'\\\'\' + \'\\\\\' + \'"\' + \'\\0\';', True),
+    ('char *s = "a\\tb" "c"; int *w = L"w" L"x"; char *t = u8"z"; int *u = U"y"; short *v = u"x" u"q"; char *e = "\\x41\\101\\"";', True),
+    ('const;', False),
+    ('static;', False),
+    ('typedef;', False),
+    ('extern inline;', False),
+    ('struct S { _Alignas(8); };', False),
+    ('void f(void){ register; }', False),
+    ('int;', False),
+    ('struct S;', True),
+    ('# 1 "/home/me/my project/x.h" 1\nint a;\n#line 5 "C:\\\\Program Files\\\\x.c"\nint b;\n# 7 "a b c.h" 3 4\nint c;', True),
+    ('#line 12u\nint a;', False),
+    ('#line 0x10\nint a;', False),
+    ('# 1 2 3\nint a;', False),
+    ('#line "f.c"\nint a;', False),
+    ('#line 3 4\nint a;', False),
+    ('# 3 "f.c" x\nint a;', False),
+    ('#pragma foo   \nint a;\n#pragma\t bar\t\n\n\nint b;\n  #  pragma   baz  qux\nint c;', True),
+    ('int x = 5 #\n;', False),
+    ('int w; #', False),
+    ('#\nint a;', False),
+    ('int a; # 5\nint b;', False),
+    ('void f(void) { return;', False),
+    ('int a[3', False),
+    ('int y = f(1, 2', False),
+    ('struct s { int x;', False),
+    ('enum {', False),
+    ('void f(void){ goto', False),
+    ('int x = (1 + 2;', False),
+    ('int x = 1 + 2);', False),
 ]
